@@ -2,6 +2,7 @@
 status.  Every output channel x open/write/close fault at every k."""
 import json
 import os
+import re
 import sys
 
 from ..core import build, runner
@@ -27,6 +28,7 @@ CLOSE_ERRNOS = ["EIO", "ENOSPC", "EDQUOT"]
 JOBS = []       # filled by setup(); inherited by forked workers
 GOLDEN = []     # per job: {"out": {ch: bytes}, "events": {ch: {"open": n, "write": n, "close": n, "sizes": [..]}}}
 KINDS = ["rel"]
+BIG_ALLOC = 1024     # bytes: what counts as a large allocation request for the allocation-fault points (thorough: 128)
 ENV = {"PATH": "/usr/bin:/bin", "LC_ALL": "C", "SOURCE_DATE_EPOCH": "1700000000"}
 
 
@@ -112,7 +114,23 @@ def _golden_for(job, idx):
             raise SystemExit("outfault: traced writes (%d) do not account for %s (%s bytes) -- seam incomplete" %
                              (written[ch], job["outputs"][ch], None if raw is None else len(raw)))
     common.cleanup(root)
-    return {"out": out, "events": events}
+    # allocation faults: how many large allocation requests does the fault-free run make (same job under the scatter allocator)?
+    root = runner.fresh_dir("golden-heap-%d" % idx)
+    common.materialise(job, root)
+    _decoys(job, root)
+    tr = os.path.join(root, "heap.trace")
+    rh = common.run_job(job, root, "rel", env=dict(ENV, SIMHEAP_SEED="1", SIMHEAP_BIG=str(BIG_ALLOC), SIMHEAP_TRACE=tr), preload=[build.shim("simheap")])
+    big = 0
+    try:
+        with open(tr) as f:
+            m = re.search(r"big=(\d+)", f.read())
+            big = int(m.group(1)) if m else 0
+    except OSError:
+        pass
+    if rh.status != 0 or common.collect_outputs(job, root) != out:
+        raise SystemExit("outfault: job %s behaves differently under the scatter allocator (%s)" % (job["name"], rh.outcome()))
+    common.cleanup(root)
+    return {"out": out, "events": events, "big_allocs": big}
 
 
 def setup(ctx):
@@ -121,6 +139,8 @@ def setup(ctx):
         build.ensure_shims()
         build.ensure("rel", ("interrogate", "interrogate_module"))
     KINDS = ["rel"]
+    global BIG_ALLOC
+    BIG_ALLOC = 1024 if ctx.tier == "quick" else 128
     if ctx.tier == "thorough":
         if not ctx.no_build:
             build.ensure("san", ("interrogate", "interrogate_module"))
@@ -170,6 +190,11 @@ def _fault_points(ji):
             pts.append({"ch": ch, "op": "write", "k": k, "action": "shortok", "n": max(1, size // 3)})
         for e in CLOSE_ERRNOS:
             pts.append({"ch": ch, "op": "close", "k": 1, "action": "fail", "err": e})
+    # memory runs out at the k-th large allocation request (the buffers the output is collected in grow by doubling: those
+    # are the requests that fail first when memory is short); once, or from then on
+    for k in range(1, g.get("big_allocs", 0) + 1):
+        for sticky in (0, 1):
+            pts.append({"ch": sorted(job["outputs"])[0], "op": "oom", "k": k, "sticky": sticky, "min": BIG_ALLOC})
     if job["tool"] == "interrogate" and "-srcdir" in job["argv"]:
         # the working directory has been removed under the tool (getcwd fails): none of the relative output paths can be
         # opened, whatever -srcdir (given as an absolute path here) the tool changes into afterwards
@@ -230,6 +255,8 @@ def _rule(job, f):
 def fault_kind(f):
     if f["op"] == "real":
         return f["kind"]
+    if f["op"] == "oom":
+        return "alloc-fail-sticky" if f.get("sticky") else "alloc-fail-once"
     if f["op"] == "write":
         return "write-" + f["action"]
     return f["op"] + "-fail"
@@ -256,6 +283,7 @@ def execute(plan):
                 "status": r.outcome(), "partial": [], "signal": bool(r.signal)}
     rules = []
     cwdgone = False
+    oom = None
     lost_real = set()   # channels whose target cannot hold the data by construction
     for f in plan["faults"]:
         if f["op"] == "real":
@@ -273,17 +301,25 @@ def execute(plan):
                 cwdgone = True
                 lost_real.update(job["outputs"])
             lost_real.add(f["ch"])
+        elif f["op"] == "oom":
+            oom = f
         else:
             rules.append(_rule(job, f))
+    env = ENV
+    preload = []
+    if oom:
+        env = dict(ENV, SIMHEAP_SEED="1", SIMHEAP_BIG=str(oom.get("min", BIG_ALLOC)), SIMHEAP_FAIL_AT=str(oom["k"]), SIMHEAP_FAIL_STICKY=str(oom.get("sticky", 0)),
+                   SIMHEAP_TRACE=os.path.join(root, "heap.trace"))
+        preload = [build.shim("simheap")]
     if cwdgone:
         argv = list(job["argv"])
         i = argv.index("-srcdir")
         argv[i + 1] = os.path.join(root, argv[i + 1])
         os.makedirs(os.path.join(root, "gone"))
         wrapper = ["/bin/sh", "-c", 'cd gone && rmdir ../gone && exec "$0" "$@"', build.tool(plan["build"], job["tool"])] + argv
-        r = runner.run_tool(wrapper, cwd=root, root=root, plan=rules, env=ENV, san=(plan["build"] == "san"))
+        r = runner.run_tool(wrapper, cwd=root, root=root, plan=rules, env=env, san=(plan["build"] == "san"), preload=preload)
     else:
-        r = common.run_job(job, root, plan["build"], plan=rules, env=ENV)
+        r = common.run_job(job, root, plan["build"], plan=rules, env=env, preload=preload)
     out = common.collect_outputs(job, root)
     for ch in lost_real:
         out[ch] = None
@@ -294,7 +330,7 @@ def execute(plan):
     harness_faults = []
     if r.status == 0 and incomplete:
         for ch in incomplete:
-            culprit = [f for f in plan["faults"] if f["ch"] == ch]
+            culprit = [f for f in plan["faults"] if f["ch"] == ch] or [f for f in plan["faults"] if f["op"] == "oom"]
             kind = fault_kind(culprit[0]) if culprit else "none"
             if not culprit:
                 # Collateral of a fault on another channel (e.g. the database differs when the code writer never ran):
